@@ -562,7 +562,7 @@ RUNNERS["sysplain"] = run_sysplain
 
 
 # ---------------------------------------------------------------------------------- C06
-def _grad_problem(lkind, seed):
+def _grad_problem(lkind, seed, pbatch=False):
     """a loss whose every (term, group) pair has a non-zero gradient: u = V * k1 + k2 (affine output transform),
     residual depending on u, k1, k2; all terms configured"""
     import random
@@ -587,15 +587,27 @@ def _grad_problem(lkind, seed):
     r["R"] = [[dict(c=1, e=e_u), dict(c=2, e=e_k1), dict(c=1, e=e_k2x)]]
     r["th"] = [2, 3]
     lossrec.set_inside(r, rng, 2)
+    if pbatch:
+        # metamodelling: a THIRD equation parameter k3 arrives with the batch (one row per point); it enters the residual only and is not
+        # one of the groups the masks range over.  Every term is then evaluated through its vmapped-parameters path.
+        r["th"] = [2, 3, 5]
+        r["ptab"] = [[], [], [rng.choice([1, 2]), rng.choice([3, 4])]]
+        r["het"] = [[], [], []]
+        r["obsd"]["etab"] = [[], [], []]
+        e_k3 = [0] * (nv + 1)
+        e_k3[nin + 3] = 1
+        r["R"] = [[dict(c=t["c"], e=t["e"] + [0]) for t in r["R"][0]] + [dict(c=1, e=e_k3)]]
     if lkind == "ode":
         r["ic"] = dict(on=True, t0=1, u0=[1])
     if lkind == "nonstatio":
         r["ic"] = dict(on=True, t0=0, u0=[[dict(c=1, e=[1])]])
     if lkind != "ode":
         r["norm"] = dict(on=True, samples=[[0], [1]], L=2)
-        lossrec.set_border(r, rng, 1, 1)
+        lossrec.set_border(r, rng, 1, 2 if (pbatch and lkind == "nonstatio") else 1)
+        if pbatch and lkind == "statio":
+            r["border"] = [rows + rows for rows in r["border"]]      # as many border rows as parameter rows
         r["bnd"] = [dict(kind="dirichlet", g=[[dict(c=1, e=[0] * nin)]], comp=[1, 1]) for _ in range(2)]
-    r["obsd"] = dict(on=True, **{"in": [[1] * nin, [2] + [0] * (nin - 1)]}, val=[[1], [-2]], slice=[1, 1], etab=[[], []])
+    r["obsd"] = dict(on=True, **{"in": [[1] * nin, [2] + [0] * (nin - 1)]}, val=[[1], [-2]], slice=[1, 1], etab=[[] for _ in r["th"]])
     return r
 
 
@@ -618,15 +630,17 @@ def run_gradbatch(task):
     field = dict(dyn_loss="dyn_loss", initial_condition="initial_condition", observations="observations", norm_loss="norm_loss",
                  boundary_loss="boundary_loss")
 
+    pbatch = bool(task.get("pbatch"))
+
     def mk_mask(m):  # m: [nn, k1, k2] booleans (python or traced)
-        return Params(nn_params=m[0], eq_params={"k1": m[1], "k2": m[2]})
+        return Params(nn_params=m[0], eq_params=dict({"k1": m[1], "k2": m[2]}, **({"k3": True} if pbatch else {})))
 
     def flat(g):
         return [np.asarray(g.nn_params.C).ravel(), np.asarray(g.eq_params["k1"]).ravel(), np.asarray(g.eq_params["k2"]).ravel()]
 
     # the numeric content is re-drawn (deterministically) until every (term, group) pair has a non-zero gradient
     for attempt in range(25):
-        rec = _grad_problem(lkind, f"{task.get('seed', 0)}/{attempt}")
+        rec = _grad_problem(lkind, f"{task.get('seed', 0)}/{attempt}", pbatch)
         loss0, params, batch = build_loss(rec)
 
         def with_keys(dk, loss0=loss0):
@@ -669,7 +683,7 @@ def run_gradbatch(task):
                     l = eqx.tree_at(lambda l: l.derivative_keys, loss0, DK(params=params))
                 elif form == "bool_rev":   # boolean tree whose equation-parameter keys are written in another order than params
                     def mk_rev(b):
-                        return Params(nn_params=bool(b[0]), eq_params={"k2": bool(b[2]), "k1": bool(b[1])})
+                        return Params(nn_params=bool(b[0]), eq_params=dict({"k2": bool(b[2]), "k1": bool(b[1])}, **({"k3": True} if pbatch else {})))
                     # built through the constructor: a pytree round trip (tree_at / jit) would re-sort the user's keys
                     l, _, _ = build_loss(rec, derivative_keys=DK(**{field[t]: mk_rev(m["mask"][k]) for k, t in enumerate(terms)}))
                 else:  # the string form of each term
